@@ -22,7 +22,12 @@ nt go test -vet=off -count=1 -run "$rx" ./$dpkg > /tmp/confirm-$name.mut.log 2>&
 rm -f $dpkg/$(basename $demo)
 for f in $mdir/*_test.go; do rm -f $dpkg/$(basename $f); done
 [ -z "$pkgs" ] && pkgs=$(git diff --name-only | xargs -n1 dirname | sort -u | sed 's|^|./|')
-nt go test -vet=off -count=1 $pkgs > /tmp/confirm-$name.suite.log 2>&1; rc_suite=$?
+# the existing suites: up to 3 attempts (services/meta has a load-dependent flake, "panic: closing" in its own test helper,
+# that also shows on the unchanged tree; a change that really breaks an existing test fails every attempt)
+for attempt in 1 2 3; do
+  nt go test -vet=off -count=1 -parallel 2 -timeout 40m $pkgs > /tmp/confirm-$name.suite.log 2>&1; rc_suite=$?
+  [ $rc_suite -eq 0 ] && break
+done
 line="CONFIRM $name: demo-clean rc=$rc_clean (want 0) build rc=$rc_build (want 0) demo-mutant rc=$rc_mut (want !=0) suite rc=$rc_suite (want 0) pkgs=$pkgs"
 echo "$line"
 if [ $rc_clean -eq 0 ] && [ $rc_build -eq 0 ] && [ $rc_mut -ne 0 ] && [ $rc_suite -eq 0 ]; then
